@@ -3,9 +3,9 @@ package core
 
 import (
 	"fmt"
-	"strings"
 	"hash/fnv"
 	"sort"
+	"strings"
 
 	"verifsim/tape"
 )
@@ -202,4 +202,3 @@ func PanicInLibrary(stack string) bool {
 	}
 	return false
 }
-
